@@ -89,19 +89,43 @@ const (
 // ---------------------------------------------------------------------------
 // feedback collector
 
+// c12Printer collects the lines that the server's real printer (the one the
+// reference server binary puts in front of its stderr) writes.
 type c12Printer struct {
 	mu    sync.Mutex
 	lines []string
+	part  []byte
+	real  internal.Printer
 }
 
-func (p *c12Printer) Printf(msg string, args ...any) {
-	p.mu.Lock()
-	p.lines = append(p.lines, fmt.Sprintf(msg, args...))
-	p.mu.Unlock()
+func newC12Printer() *c12Printer {
+	p := &c12Printer{}
+	p.real = internal.NewPrinter(c12LineWriter{p})
+	return p
 }
+
+type c12LineWriter struct{ p *c12Printer }
+
+func (w c12LineWriter) Write(data []byte) (int, error) {
+	p := w.p
+	p.mu.Lock()
+	defer p.mu.Unlock()
+	p.part = append(p.part, data...)
+	for {
+		i := bytes.IndexByte(p.part, '\n')
+		if i < 0 {
+			break
+		}
+		p.lines = append(p.lines, string(p.part[:i]))
+		p.part = p.part[i+1:]
+	}
+	return len(data), nil
+}
+
+func (p *c12Printer) Printf(msg string, args ...any) { p.real.Printf(msg, args...) }
 
 func (p *c12Printer) PrefixPrintf(prefix, msg string, args ...any) {
-	p.Printf(prefix+": "+msg, args...)
+	p.real.PrefixPrintf(prefix, msg, args...)
 }
 
 var _ internal.Printer = (*c12Printer)(nil)
@@ -867,7 +891,7 @@ func c12Frame(t *testing.T, tape *simrt.Tape, body func(e *c12Env)) *simwork.Res
 		simnet.Reset()
 		simnet.Configure(simnet.Config{Seed: uint64(tape.Choose(1<<20, "netseed")), MaxSegment: 2048, SmallPermil: 250, MaxLatency: 500 * time.Microsecond})
 		env.srv = c12DrawServer(tape)
-		env.printer = &c12Printer{}
+		env.printer = newC12Printer()
 		if env.srv.Tracer {
 			env.trace = &tracer.Tracer{}
 			env.traced = map[string]bool{}
@@ -1011,6 +1035,13 @@ func c12MatrixRun(t *testing.T, tape *simrt.Tape, o simwork.Opts) *simwork.Resul
 		nameSeq := 0
 		fresh := func() string {
 			nameSeq++
+			switch tape.Choose(6, "name-kind") {
+			case 0:
+				// a name is data, never a format
+				return fmt.Sprintf("C12 Suite/deadline at 50%%/case-%d", nameSeq)
+			case 1:
+				return fmt.Sprintf("C12 Suite/%%s %%d %%v/case-%d", nameSeq)
+			}
 			return fmt.Sprintf("C12 Suite/case-%d", nameSeq)
 		}
 		for si := 0; si < nsteps; si++ {
